@@ -69,6 +69,11 @@ Alive(st, o) == st.O[o].alive
 Children(st, o) == {c \in Ids(st) : st.O[c].alive /\ st.O[c].par = o}
 Views(st, b) == {c \in Children(st, b) : st.O[c].k = "memory"}
 
+\* [x \in S |-> e] is kept by TLC as an unevaluated function; states holding one cannot be written to the
+\* disk queue (TLC aborts).  These two force the explicit value.
+NormSeq(f) == SubSeq(f, 1, Len(f))
+NormFun(f) == f @@ <<>>
+
 ---------------------------------------------------------------------------
 (* Rings *)
 RemoveFrom(ring, s) ==
@@ -92,11 +97,11 @@ Dying(st, o) == LET D == Down(st, o) IN D \cup Up(st, D)
 
 \* destructors: every dying object is destroyed once and NULLs the handles in its ring
 Kill(st, D) ==
-  [O |-> [o \in Ids(st) |-> IF o \in D
+  [O |-> NormSeq([o \in Ids(st) |-> IF o \in D
                              THEN [st.O[o] EXCEPT !.alive = FALSE, !.dc = @ + 1, !.ring = <<>>]
-                             ELSE st.O[o]],
-   H |-> [s \in AllSlots |-> IF \E o \in D : s \in Range(st.O[o].ring)
-                             THEN [st.H[s] EXCEPT !.ref = 0] ELSE st.H[s]]]
+                             ELSE st.O[o]]),
+   H |-> NormFun([s \in AllSlots |-> IF \E o \in D : s \in Range(st.O[o].ring)
+                             THEN [st.H[s] EXCEPT !.ref = 0] ELSE st.H[s]])]
 
 RECURSIVE KillObj(_, _), Unref(_, _)
 \* a handle gives up its reference (removeXRef): unlink; delete the object if that was the last one
@@ -142,17 +147,17 @@ Acct(st, d) ==
       Sum(S) == IF S = {} THEN 0 ELSE LET x == CHOOSE x \in S : TRUE IN st.O[x].bytes + Sum(S \ {x})
   IN Sum(bs)
 Obs(st) ==
-  [Hd |-> [j \in 1..Len(SlotSeq) |->
+  [Hd |-> NormSeq([j \in 1..Len(SlotSeq) |->
              LET h == st.H[SlotSeq[j]] IN
-             IF ~h.in THEN -1 ELSE IF h.ref = 0 THEN 0 ELSE st.O[h.ref].i],
-   L  |-> [x \in 1..Len(KindSeq) |->
+             IF ~h.in THEN -1 ELSE IF h.ref = 0 THEN 0 ELSE st.O[h.ref].i]),
+   L  |-> NormSeq([x \in 1..Len(KindSeq) |->
              Cardinality({o \in Ids(st) : st.O[o].alive /\
-                            (st.O[o].k = KindSeq[x] \/ (KindSeq[x] = "buffer" /\ st.O[o].k = "pool"))})],
-   D  |-> [x \in 1..Len(KindSeq) |->
-             [j \in 1..(NextIdx(st, KindSeq[x]) - 1) |-> st.O[IdxObj(st, KindSeq[x], j)].dc]],
-   A  |-> [j \in 1..Len(SlotSeq) |->
+                            (st.O[o].k = KindSeq[x] \/ (KindSeq[x] = "buffer" /\ st.O[o].k = "pool"))})]),
+   D  |-> NormSeq([x \in 1..Len(KindSeq) |->
+             NormSeq([j \in 1..(NextIdx(st, KindSeq[x]) - 1) |-> st.O[IdxObj(st, KindSeq[x], j)].dc])]),
+   A  |-> NormSeq([j \in 1..Len(SlotSeq) |->
              LET h == st.H[SlotSeq[j]] IN
-             IF h.in /\ h.ref # 0 /\ KindOf(SlotSeq[j]) = "device" THEN Acct(st, h.ref) ELSE 0]]
+             IF h.in /\ h.ref # 0 /\ KindOf(SlotSeq[j]) = "device" THEN Acct(st, h.ref) ELSE 0])]
 
 \* end of the enclosing block: every variable still in scope is destroyed, in SlotSeq order
 RECURSIVE ExitFrom(_, _)
@@ -319,34 +324,35 @@ SetStream(d, s) ==
           Commit(AssignEff(S0, c, s), Rec("setStream", d, s, 0), FALSE, IF Ref(c) = Ref(s) THEN {} ELSE {c})
 
 Init == /\ O = <<>>
-        /\ H = [s \in AllSlots |-> [in |-> FALSE, ref |-> 0]]
+        /\ H = NormFun([s \in AllSlots |-> [in |-> FALSE, ref |-> 0]])
         /\ last = [a |-> "init", drop |-> {}]
         /\ hist = <<>>
         /\ prof \in DOMAIN Profiles
 
 \* the calls, quantified over the handle variables of the profile
+Busy == MaxHist = 0 \/ Len(hist) < Len(Pre) + MaxHist
 UseK(k) == {s \in Use : KindOf(s) = k}
 Swappable == {"memory", "pool"}
-DoDefaultConstruct == \E s \in Use : DefaultConstruct(s)
-DoCopyConstruct == \E s \in Use : \E t \in UseK(KindOf(s)) : CopyConstruct(s, t)
-DoAssign == \E s \in Use : \E t \in UseK(KindOf(s)) : Assign(s, t)
-DoSwap == \E k \in Swappable : \E s, t \in UseK(k) : Swap(s, t)
-DoFree == \E s \in Use : Free(s)
-DoScopeExit == \E s \in Use : ScopeExit(s)
-DoDontUseRefs == \E s \in Use : DontUseRefs(s)
-DoNewDevice == \E s \in UseK("device") : NewDevice(s)
-DoMalloc == \E s \in UseK("memory"), t \in UseK("device") : Malloc(s, t)
-DoWrap == \E s \in UseK("memory"), t \in UseK("device") : Wrap(s, t)
-DoSlice == \E s, t \in UseK("memory") : Slice(s, t)
-DoNewPool == \E s \in UseK("pool"), t \in UseK("device") : NewPool(s, t)
-DoReserve == \E s \in UseK("memory"), t \in UseK("pool") : Reserve(s, t)
-DoResize == \E s \in UseK("pool") : \E n \in 0..MaxCells : Resize(s, n)
-DoShrinkToFit == \E s \in UseK("pool") : ShrinkToFit(s)
-DoBuildKernel == \E s \in UseK("kernel"), t \in UseK("device") : BuildKernel(s, t)
-DoCreateStream == \E s \in UseK("stream"), t \in UseK("device") : CreateStream(s, t)
-DoTagStream == \E s \in UseK("tag"), t \in UseK("device") : TagStream(s, t)
-DoGetStream == \E s \in UseK("stream"), t \in UseK("device") : GetStream(s, t)
-DoSetStream == \E s \in UseK("device"), t \in UseK("stream") : SetStream(s, t)
+DoDefaultConstruct == Busy /\ \E s \in Use : DefaultConstruct(s)
+DoCopyConstruct == Busy /\ \E s \in Use : \E t \in UseK(KindOf(s)) : CopyConstruct(s, t)
+DoAssign == Busy /\ \E s \in Use : \E t \in UseK(KindOf(s)) : Assign(s, t)
+DoSwap == Busy /\ \E k \in Swappable : \E s, t \in UseK(k) : Swap(s, t)
+DoFree == Busy /\ \E s \in Use : Free(s)
+DoScopeExit == Busy /\ \E s \in Use : ScopeExit(s)
+DoDontUseRefs == Busy /\ \E s \in Use : DontUseRefs(s)
+DoNewDevice == Busy /\ \E s \in UseK("device") : NewDevice(s)
+DoMalloc == Busy /\ \E s \in UseK("memory"), t \in UseK("device") : Malloc(s, t)
+DoWrap == Busy /\ \E s \in UseK("memory"), t \in UseK("device") : Wrap(s, t)
+DoSlice == Busy /\ \E s, t \in UseK("memory") : Slice(s, t)
+DoNewPool == Busy /\ \E s \in UseK("pool"), t \in UseK("device") : NewPool(s, t)
+DoReserve == Busy /\ \E s \in UseK("memory"), t \in UseK("pool") : Reserve(s, t)
+DoResize == Busy /\ \E s \in UseK("pool") : \E n \in 0..MaxCells : Resize(s, n)
+DoShrinkToFit == Busy /\ \E s \in UseK("pool") : ShrinkToFit(s)
+DoBuildKernel == Busy /\ \E s \in UseK("kernel"), t \in UseK("device") : BuildKernel(s, t)
+DoCreateStream == Busy /\ \E s \in UseK("stream"), t \in UseK("device") : CreateStream(s, t)
+DoTagStream == Busy /\ \E s \in UseK("tag"), t \in UseK("device") : TagStream(s, t)
+DoGetStream == Busy /\ \E s \in UseK("stream"), t \in UseK("device") : GetStream(s, t)
+DoSetStream == Busy /\ \E s \in UseK("device"), t \in UseK("stream") : SetStream(s, t)
 
 Call == \/ DoDefaultConstruct
         \/ DoCopyConstruct
@@ -382,8 +388,7 @@ Finish == /\ MaxHist > 0 /\ Len(hist) = GenBound /\ last.a # "fin"
           /\ last' = [a |-> "fin", drop |-> {}]
           /\ UNCHANGED <<O, H, hist, prof>>
 
-Next == \/ (MaxHist = 0 \/ Len(hist) < GenBound) /\ Call
-        \/ Finish
+Next == Call \/ Finish
 
 Spec == Init /\ [][Next]_vars
 
